@@ -30,6 +30,9 @@ B("c20_local_rename", "C20", "ak/short_uuid.py",
   "    base = len(_ALPHABET)\n    for char in reversed(string):\n        number = number * base + _INDEX_ALPHABET[char]")
 
 # ---------------------------------------------------------------- C01
+M("c01_any_token_except_keeps_one_excluded", "C01", "ak/llparser.py",
+  "        return [t for t in terminals if t not in tokens_to_exclude]",
+  "        return [t for t in terminals if t not in sorted(tokens_to_exclude)[1:]]")
 M("c01_splice_reversed", "C01", "ak/llparser.py",
   "                        t_elem.value.extend(suffix_elem.value)",
   "                        t_elem.value.extend(suffix_elem.value[::-1])")
